@@ -913,6 +913,7 @@ func init() {
 			}
 		}})
 		c06WaveD(x)
+		c06WaveE(x)
 	}
 }
 
